@@ -1,3 +1,4 @@
+pub mod c01;
 pub mod c03;
 pub mod c04;
 pub mod c12;
@@ -6,7 +7,7 @@ pub mod c15;
 
 use crate::framework::Property;
 
-pub static ALL: &[&dyn Property] = &[&c03::C03, &c04::C04, &c12::C12, &c13::C13, &c15::C15];
+pub static ALL: &[&dyn Property] = &[&c01::C01, &c03::C03, &c04::C04, &c12::C12, &c13::C13, &c15::C15];
 
 pub fn lookup(id: &str) -> Option<&'static dyn Property> {
     ALL.iter().copied().find(|p| p.id() == id)
